@@ -167,7 +167,7 @@ theorem inv_prunePathsA {Q : Nat → Prop} {s0 s1 s2 : Store} {treeSep : Str} {r
       · rcases List.mem_append.1 ha with ha | ha
         · exact hA0 a ha
         · exact hN a ha
-      · exact hA0 a (List.mem_filter.1 ha).1
+      · exact hA0 a ha
 
 /-- `pruneA` works on a copy: for any boundary `k ≤ s.n` that the store respects, the cells
     below `k` are untouched, the result node is above, and the boundary is still respected -/
